@@ -21,7 +21,8 @@ class TxSpec(Spec):
                  'edb/server/compiler/compiler.py: Compiler.compile, compile_in_tx, _try_compile_rollback, compile(), _try_compile, _try_compile_ast, '
                  '_compile_dispatch_ql, _compile_ql_transaction, _compile_ql_sess_state, _make_query_unit, _check_force_database_error, _get_config_val',
                  'edb/server/compiler/ddl.py: compile_and_apply_ddl_stmt / _compile_and_apply_ddl_stmt (incl. the log-DDL-as-migration wrapping and the '
-                 'migration-block branch), compile_dispatch_ql_migration, _start_migration, _populate_migration, _commit_migration, _abort_migration '
+                 'migration-block and rewrite-block branches), compile_dispatch_ql_migration, _start_migration, _populate_migration, _commit_migration, _abort_migration, '
+                 '_start_migration_rewrite, _commit_migration_rewrite, _abort_migration_rewrite '
                  '(above a stand-in for the schema layer and the SQL generation)',
                  'edb.edgeql.ast / qltypes, edb.errors, edb/server/compiler/enums.py'],
         'stub': tx_island.STUBS,
@@ -32,7 +33,7 @@ class TxSpec(Spec):
                           'compiler pool (pool.py FixedPool / SimpleAdaptivePool, queue.py, amsg.py hub) to REAL worker.py instances '
                           '(1-3 simulated processes, real worker_proc.worker() loop) running the real compiler transaction code; worker '
                           'crashes, slow workers, template restarts; rpc.CompilationRequest (de)serialisation is an in-process table'],
-        'not_covered': ['MIGRATION REWRITE blocks, DESCRIBE CURRENT MIGRATION / ALTER CURRENT MIGRATION REJECT PROPOSED, migration commands inside scripts',
+        'not_covered': ['DESCRIBE CURRENT MIGRATION / ALTER CURRENT MIGRATION REJECT PROPOSED, RESET SCHEMA, migration commands inside scripts and in the pooled strata',
                         'the migration log itself (parent checks): get_last_migration() is always None', 'SQL-protocol transaction state',
                         'the server-side compiled-query cache'],
     }
@@ -42,7 +43,7 @@ class TxSpec(Spec):
             'pickle; oracles T1 (what a query is compiled against), T2 (outcome equivalence with PostgreSQL semantics), T3 (unit fields), T4 (baseline '
             'after COMMIT/ROLLBACK), T5 (sync_tx finds every position the server reports); strata migration / migration_nofault add START MIGRATION TO '
             '<target>, DDL inside the block, POPULATE / COMMIT (also rejected when the generated CREATE MIGRATION is applied, also failing in the backend) / '
-            'ABORT MIGRATION (also in an aborted transaction), started outside or inside a transaction block, mixed with everything above: the model '
+            'ABORT MIGRATION (also in an aborted transaction), START / COMMIT / ABORT MIGRATION REWRITE with START MIGRATION TO COMMITTED SCHEMA inside, started outside or inside a transaction block, mixed with everything above: the model '
             'treats the block as an overlay none of whose DDL has reached the backend; the outcome of the migration commands themselves is only '
             'observed (the property does not state it), T1-T5 apply to everything else; stratum deep = 10-40 messages inside one transaction; '
             'stratum refusal (observe-only) = a compiled statement refused by the server before execution; non-trivial = at least one message inside a transaction '
@@ -230,6 +231,27 @@ MUTANTS = [
     current_tx.update_migration_state(None)
 """, """    current_tx.update_schema(mstate.initial_schema)
 """, 0)]},
+    {'name': 'revert_fix_commit_in_rewrite_block', 'reverts': 'C09-commit-inside-rewrite-block',
+     'strata': ['migration', 'migration_nofault'],
+     'patches': [(CP, """        ctx._assert_not_in_migration_block(ql)
+        # The schema a migration rewrite is rebuilding exists only here;
+        # committing it would publish it as the schema of the database.
+        ctx._assert_not_in_migration_rewrite_block(ql)
+""", """        ctx._assert_not_in_migration_block(ql)
+""")]},
+    # ---- migration rewrite blocks ----
+    {'name': 'abort_rewrite_does_not_restore_the_schema', 'strata': ['migration', 'migration_nofault'],
+     'patches': [(DD, """    if mrstate.initial_savepoint:
+        current_tx.abort_migration(mrstate.initial_savepoint)
+        sql = NIL_QUERY""", """    if mrstate.initial_savepoint:
+        sql = NIL_QUERY""")]},
+    {'name': 'commit_rewrite_keeps_the_scratch_schema', 'strata': ['migration', 'migration_nofault'],
+     'patches': [(DD, """    schema = mrstate.target_schema
+    current_tx.update_schema(schema)
+    current_tx.update_migration_rewrite_state(None)
+""", """    schema = mrstate.target_schema
+    current_tx.update_migration_rewrite_state(None)
+""")]},
 ]
 SPEC.mutants = MUTANTS
 SPEC.quick_mutants = ['commit_publishes_initial_state', 'savepoint_snapshots_initial_state',
